@@ -9,7 +9,9 @@ EXPLANATION = (
     'dep(head, root column)) as linear forms over discovered roles; head propagation at both binary sites from '
     'the very back-pointers stored; the number handed out is goal.score() with out_score literally 0, appended '
     'once per goal item and zipped positionally with the trees; the failure placeholder carries -inf. '
-    'Float accumulation order is not decided.')
+    'Float accumulation order is not decided.'
+    ' Goal collection / status (only goal items are delivered with their score), the positional callbacks and the call-local rule cache are part of this check as well.'
+)
 TRUSTED = ['clang-14 front end', 'CPython ast', 'sa/pyx.py normaliser', 'rule table DESIGN.md C09']
 
 
